@@ -86,7 +86,7 @@ def gen(stratum, rng, tier):
     elif stratum == "single-alldiff":
         vars_ = cpgen._vars(rng, 2, 4, 4)
         n = len(vars_)
-        spec = {"vars": vars_, "cons": [("all_different", rng.sample(range(n), rng.randint(2, n)))]}
+        spec = {"vars": vars_, "cons": [("all_different", cpgen._alldiff_idx(rng, n))]}
     elif stratum == "single-sum":
         vars_ = cpgen._vars(rng, 1, 4, 4, lo_choices=[-2, -1, 0, 1, 2])
         spec = {"vars": vars_, "cons": [cpgen.sum_con(rng, len(vars_), vars_, 5)]}
